@@ -15,6 +15,7 @@ CONSTANTS N,        \* number of bits
           IdxLo, IdxHi,   \* indices explored (include negative and >= N ones)
           Vals      \* values explored for assignment (include -1 and 2)
 
+CONSTANT HDepth
 VARIABLES bits, bytes, hist, last
 vars == <<bits, bytes, hist, last>>
 
@@ -87,6 +88,10 @@ Next == \E o \in Ops : Do(o)
 Spec == Init /\ [][Next]_vars
 
 View == <<bits, bytes>>
+(* ViewH / HBound: enumerate HISTORIES (reads, counts and string forms included) of a tiny array up to HDepth operations: the code may
+   keep state across calls (a cached count) that only a particular order of operations shows *)
+ViewH == <<bits, bytes, hist>>
+HBound == Len(hist) <= HDepth
 
 ----------------------------------------------------------------------------
 (* design-level properties *)
